@@ -436,13 +436,114 @@ func c08(c *core.Ctx, r *core.Report) {
 		}
 		r.Check(rateOK, key+"#rate-arg", an.Pos(c, shareCall), "rate argument is "+rateD, "the rate handed to the share predicate is "+rateD+", not the max-failures-rate option")
 		rets := an.Returns(shareFn)
-		if len(rets) != 1 {
-			r.Undecided(key+"#shape", c.Pos(shareFn.Pos()), "share predicate has %d returns", len(rets))
-			return
+		var cmp *ssa.BinOp
+		ok := false
+		if len(rets) == 1 {
+			cmp, ok = an.Strip(rets[0].Results[0]).(*ssa.BinOp)
 		}
-		cmp, ok := an.Strip(rets[0].Results[0]).(*ssa.BinOp)
+		if !ok {
+			// the comparison is branched on (`if a > b { return true }; return false`), possibly behind a shortcut: read
+			// the function path by path — its result must be the value of ONE comparison on every path that evaluates
+			// it, and false on paths that leave early because nothing failed
+			paths, err := an.DecisionPaths(shareFn, 64)
+			if err != nil {
+				r.Undecided(key+"#shape", c.Pos(shareFn.Pos()), "share predicate: %v", err)
+				return
+			}
+			isProductCmp := func(v ssa.Value) *ssa.BinOp {
+				bo, isB := an.Strip(v).(*ssa.BinOp)
+				if !isB {
+					return nil
+				}
+				switch bo.Op {
+				case token.GTR, token.LSS, token.GEQ, token.LEQ:
+				default:
+					return nil
+				}
+				for _, side := range []ssa.Value{bo.X, bo.Y} {
+					if m, isM := an.Strip(side).(*ssa.BinOp); isM && (m.Op == token.MUL || m.Op == token.QUO) {
+						return bo
+					}
+				}
+				return nil
+			}
+			for _, p := range paths {
+				for _, l := range p.Lits {
+					if m := isProductCmp(l.Cond); m != nil {
+						if cmp != nil && cmp != m {
+							r.Undecided(key+"#shape", c.Pos(shareFn.Pos()), "share predicate evaluates more than one comparison of products")
+							return
+						}
+						cmp = m
+					}
+				}
+				if p.Ret != nil {
+					if m := isProductCmp(p.OnPath(p.Ret.Results[0])); m != nil {
+						if cmp != nil && cmp != m {
+							r.Undecided(key+"#shape", c.Pos(shareFn.Pos()), "share predicate evaluates more than one comparison of products")
+							return
+						}
+						cmp = m
+					}
+				}
+			}
+			if cmp == nil {
+				r.Undecided(key+"#shape", c.Pos(shareFn.Pos()), "no comparison of products found in the share predicate")
+				return
+			}
+			for _, p := range paths {
+				if p.Ret == nil {
+					continue
+				}
+				res := an.Strip(p.OnPath(p.Ret.Results[0]))
+				decided, mval := false, false
+				for _, l := range p.Lits {
+					if an.Strip(l.Cond) == ssa.Value(cmp) {
+						decided, mval = true, l.Val
+					}
+				}
+				if res == ssa.Value(cmp) {
+					continue
+				}
+				k, isK := res.(*ssa.Const)
+				if !isK || k.Value == nil {
+					r.Violation(key+"#shape", an.Pos(c, p.Ret), "the share predicate returns %s on one path, not the value of its comparison", an.D().Of(res))
+					return
+				}
+				rv := k.Value.String() == "true"
+				if decided {
+					if rv != mval {
+						r.Violation(key+"#shape", an.Pos(c, p.Ret), "the share predicate returns %v where its comparison is %v", rv, mval)
+						return
+					}
+					continue
+				}
+				// a shortcut taken before the comparison: only "nothing failed → false"
+				shortcutOK := false
+				for _, l := range p.Lits {
+					bo, isB := an.Strip(l.Cond).(*ssa.BinOp)
+					if !isB {
+						continue
+					}
+					kk, isKK := bo.Y.(*ssa.Const)
+					if !isKK || kk.Value == nil || kk.Value.String() != "0" {
+						continue
+					}
+					if f, _ := an.TerminalField(bo.X); f != nil && f.Name() == "Count" && strings.Contains(an.D().Of(bo.X), "Failed") {
+						if (bo.Op == token.EQL && l.Val) || (bo.Op == token.NEQ && !l.Val) || (bo.Op == token.LEQ && l.Val) || (bo.Op == token.GTR && !l.Val) {
+							shortcutOK = true
+						}
+					}
+				}
+				if rv || !shortcutOK {
+					r.Violation(key+"#shape", an.Pos(c, p.Ret), "the share predicate answers %v on a path that never compares the share (only `no failures → false` may be decided early)", rv)
+					return
+				}
+			}
+			ok = true
+		}
 		if !ok || !(cmp.Op == token.GTR || cmp.Op == token.LSS) {
-			r.Violation(key+"#strict", an.Pos(c, rets[0]), "the share predicate is %s, not a strict comparison: 'strictly greater than max-failures-rate percent' is not what is decided", an.D().Of(rets[0].Results[0]))
+			r.Violation(key+"#strict", c.Pos(cmp.Pos()), "the share predicate is %s, not a strict comparison: 'strictly greater than max-failures-rate percent' is not what is decided", an.D().Of(cmp))
 			return
 		}
 		big, small := cmp.X, cmp.Y
